@@ -483,7 +483,7 @@ func checkLockPairing(c *Ctx, r *Rec, rule string, info *types.Info, fd *ast.Fun
 					goalNode: func(x ast.Node) bool {
 						found := false
 						inspectNoLit(x, func(y ast.Node) bool {
-							if call, ok := y.(*ast.CallExpr); ok && isBuiltinCall(info, call, "panic") {
+							if call, ok := y.(*ast.CallExpr); ok && isBuiltinCall(info, call, "panic") && !nilAssertion(info, fd.Body, call) {
 								found = true
 							}
 							// a method of the same type that raises a panic itself (a limit check of
